@@ -103,8 +103,8 @@ def run_shard(ctx):
     # is observed deterministically and anything else stays new
     for i, e in enumerate([e for e in corp if e['tool'] == 'anm' and b'THTX' in e['data'] and formats.game_ge(e['game'], 'th11')][:4]):
         if i % ctx.nshards != ctx.shard % 4 or ctx.shard >= 4: continue
-        d = bytearray(e['data']); d[20:24] = (4500).to_bytes(2, 'little') * 2
-        run_one(ctx, e, bytes(d), 'anm', e['game'], None, 'extract', 'mutant', {'kind': 'directed-image-offsets', 'offset_x': 4500, 'offset_y': 4500})
+        d = bytearray(e['data']); d[20:24] = (3600).to_bytes(2, 'little') * 2
+        run_one(ctx, e, bytes(d), 'anm', e['game'], None, 'extract', 'mutant', {'kind': 'directed-image-offsets', 'offset_x': 3600, 'offset_y': 3600})
     while done < n:
         e = r.pick(corp)
         data = e['data']
